@@ -5,6 +5,7 @@ import Driver.Common
 import Cascette.Model.Salsa20
 import Cascette.Model.Jenkins
 import Cascette.Model.Arc4
+import Cascette.Model.Simd
 open Cascette Drv
 
 def w32? (s : String) : Option W32 := s.toNat?.map (BitVec.ofNat 32)
@@ -62,6 +63,31 @@ def handle : List String → String
       let (h64, h32) := Model.Jenkins.jenkins96 m
       hexFixed 16 h64.toNat ++ " " ++ hexFixed 8 h32.toNat
     | _ => "bad-op"
+  | ["memcmp", mask, a, b] =>
+    match mask.toNat?, parseHexNat a, parseHexNat b with
+    | some m, some a, some b =>
+      match Model.Simd.vectorizedMemcmp ⟨m % 2 = 1, m / 4 % 2 = 1⟩ a b with
+      | .lt => "lt" | .eq => "eq" | .gt => "gt"
+    | _, _, _ => "bad-op"
+  | ["memeq", mask, a, b] =>
+    match mask.toNat?, parseHexNat a, parseHexNat b with
+    | some m, some a, some b => toString (Model.Simd.memEqual ⟨m % 2 = 1, m / 4 % 2 = 1⟩ a b)
+    | _, _, _ => "bad-op"
+  | ["memmem", mask, h, n] =>
+    match mask.toNat?, parseHexNat h, parseHexNat n with
+    | some m, some h, some n =>
+      match Model.Simd.vectorizedMemmem ⟨m % 2 = 1, m / 4 % 2 = 1⟩ h n with
+      | some p => toString p
+      | none => "none"
+    | _, _, _ => "bad-op"
+  | ["memset", mask, d, v] =>
+    match mask.toNat?, parseHexNat d, v.toNat? with
+    | some m, some d, some v => hexOfNats (Model.Simd.memset ⟨m % 2 = 1, m / 4 % 2 = 1⟩ d v)
+    | _, _, _ => "bad-op"
+  | ["memcpy", mask, d, src] =>
+    match mask.toNat?, parseHexNat d, parseHexNat src with
+    | some m, some d, some src => hexOfNats (Model.Simd.memcpy ⟨m % 2 = 1, m / 4 % 2 = 1⟩ d src)
+    | _, _, _ => "bad-op"
   | _ => "bad-op"
 
 def main : IO Unit := do
